@@ -110,7 +110,7 @@ def gen_c09_spec(rng: random.Random) -> Dict[str, Any]:
         for op_ in ops:
             _clean(op_.get("labels", {}))
     spec: Dict[str, Any] = {
-        "declared": declared, "ops": ops, "fmt": fmt, "fmt2": fmt2, "use_retry": use_retry, "shared": shared,
+        "declared": declared, "ops": ops, "fmt": fmt, "fmt2": fmt2, "use_retry": use_retry, "shared": shared, "validate": rng.random() < 0.75,
         "retry_labels": rng.choice(["declared", "op"]),
         "no_result_on_retry": rng.random() < 0.5,
         "A": rng.choice([1, 2, None]),
@@ -304,8 +304,9 @@ def run_c09(spec: Dict[str, Any]) -> "tuple[List[Violation], Dict[str, Any]]":
                     sc.kicked.pop()
         # worker side
         MonReceiver.sc = sc
+        # (parameter parsing on or off: labels are not parameters)
         receiver = MonReceiver(broker=broker, executor=executor, max_async_tasks=spec["A"], run_startup=False,
-                               ack_type=AcknowledgeType.WHEN_SAVED)
+                               ack_type=AcknowledgeType.WHEN_SAVED, validate_params=spec.get("validate", True))
         finish = asyncio.Event()
         loop.call_at(loop.time() + 15.0, finish.set)
         await asyncio.wait_for(receiver.listen(finish), timeout=100)
